@@ -2,7 +2,7 @@
    if it succeeds, every node it reached carries exactly the weights of Spec/GraphWeights.v (C04), so the
    result does not depend on the order (C06). *)
 From Verif Require Import Base.Str Base.Outcome Model.Ast Model.Printer Model.WGraph Model.WWeights
-  Proofs.StrategyProofs Proofs.GraphPrims Spec.GraphWeights.
+  Proofs.StrategyProofs Proofs.WildcardProofs Proofs.GraphPrims Spec.GraphWeights.
 
 (* ---------------------------------------------------------------------------------------- *)
 (* 1. keys of the strategies' results come from their inputs                                 *)
@@ -132,6 +132,44 @@ Section Static.
     - apply KP_bump. apply KP_copy. apply IH.
   Qed.
   Lemma gs_nonref x : KP nonref (gs x). Proof. apply gspec_nonref. Qed.
+
+  (* ---- wildcards ---- *)
+  Lemma flat_map_ext_in {A B} (f g : A -> list B) l : (forall a, In a l -> f a = g a) -> flat_map f l = flat_map g l.
+  Proof. induction l as [|a l IH]; intros H; simpl; [reflexivity|]. rewrite (H a) by (left; reflexivity). f_equal. apply IH. intros b Hb. apply H. right. exact Hb. Qed.
+
+  Definition wsx (x : str) : list str := wild_spec g0 (S (rank x)) x.
+  Definition ews (sh : eshape_t) : list str := edge_wild g0 wsx sh.
+
+  Lemma wild_spec_fuel f1 : forall f2 x, (rank x < f1)%nat -> (rank x < f2)%nat -> wild_spec g0 f1 x = wild_spec g0 f2 x.
+  Proof.
+    induction f1 as [|f1 IH]; intros f2 x H1 H2; [lia|]. destruct f2 as [|f2]; [lia|].
+    cbn [wild_spec]. apply flat_map_ext_in. intros e He.
+    destruct (ranked x e He) as [_ Hr]. unfold edge_wild, eshape.
+    destruct (n_type (node_of g0 (e_to e))); try reflexivity; apply IH; lia.
+  Qed.
+
+  Lemma wsx_equation x : wsx x = flat_map (fun e => ews (eshape e)) (edges_from g0 x).
+  Proof.
+    unfold wsx at 1. cbn [wild_spec]. apply flat_map_ext_in. intros e He.
+    destruct (ranked x e He) as [_ Hr]. unfold ews, edge_wild, eshape.
+    destruct (n_type (node_of g0 (e_to e))); try reflexivity; apply wild_spec_fuel; lia.
+  Qed.
+
+  (* the specification lists exactly the public types whose wildcard node can be reached *)
+  Lemma wsx_reaches n : forall x T, (rank x < n)%nat -> (In T (wsx x) <-> reaches_wild g0 x T).
+  Proof.
+    induction n as [|n IH]; intros x T Hn; [lia|]. rewrite wsx_equation. rewrite in_flat_map. split.
+    - intros [e [He Hin]]. destruct (ranked x e He) as [_ Hr]. unfold ews, edge_wild, eshape in Hin.
+      destruct (n_type (node_of g0 (e_to e))) eqn:Tt.
+      + destruct Hin.
+      + apply (rw_step g0 x e T He); [rewrite Tt; reflexivity|]. apply IH; [lia|exact Hin].
+      + apply (rw_step g0 x e T He); [rewrite Tt; reflexivity|]. apply IH; [lia|exact Hin].
+      + destruct Hin as [<-|[]]. apply (rw_here g0 x e He Tt).
+    - intros H. inversion H as [x' e He Tt Ex ET|x' e T' He Tt Hr' Ex ET]; subst.
+      + exists e. split; [exact He|]. unfold ews, edge_wild, eshape. rewrite Tt. left. reflexivity.
+      + exists e. split; [exact He|]. destruct (ranked x e He) as [_ Hr]. unfold ews, edge_wild, eshape.
+        destruct (n_type (node_of g0 (e_to e))) eqn:Tt'; try discriminate Tt; apply IH; try lia; exact Hr'.
+  Qed.
 End Static.
 
 (* ---------------------------------------------------------------------------------------- *)
@@ -211,12 +249,18 @@ Proof.
 Qed.
 
 (* ---------------------------------------------------------------------------------------- *)
-(* 4. what the invariant looks at: shapes and weights, not wildcard lists                    *)
+(* 4. what the invariant looks at                                                            *)
 (* ---------------------------------------------------------------------------------------- *)
 Definition ev (e : wedge) : eshape_t * wmap := (eshape e, e_weights e).
 Definition eview (s : wstate) (x : str) : list (eshape_t * wmap) := map ev (es s x).
 Definition nview (s : wstate) (x : str) : bool * ntype * str * wmap :=
   (has_node (ws_g s) x, n_type (nd s x), n_label (nd s x), n_weights (nd s x)).
+(* wildcard lists: of the node, and of its edges (with their shapes) *)
+Definition ewv (e : wedge) : eshape_t * list str := (eshape e, e_wild e).
+Definition wv (s : wstate) (x : str) : list str * list (eshape_t * list str) := (n_wild (nd s x), map ewv (es s x)).
+
+Definition seteq (a b : list str) : Prop := forall T, In T a <-> In T b.
+Lemma seteq_refl a : seteq a a. Proof. intros T; tauto. Qed.
 
 Lemma map_wreplace_nth {A B} (f : A -> B) (l : list A) i x : map f (wreplace_nth i x l) = wreplace_nth i (f x) (map f l).
 Proof. revert i. induction l as [|y l IH]; intros [|i]; simpl; try reflexivity. f_equal. apply IH. Qed.
@@ -278,6 +322,45 @@ Qed.
 Lemma nonterminal_has_node g x : is_terminal (n_type (node_of g x)) = false -> has_node g x = true.
 Proof. unfold node_of, has_node. destruct (find_node x (g_nodes g)); [reflexivity|discriminate]. Qed.
 
+(* wildcard views under the updates *)
+Lemma wv_upd_node_keep s id f x :
+  (forall n, n_id (f n) = n_id n) -> (forall n, n_wild (f n) = n_wild n) -> wv (upd_node s id f) x = wv s x.
+Proof.
+  intros Hid Hw. unfold wv. rewrite es_upd_node. f_equal. rewrite nd_upd_node by exact Hid.
+  destruct (str_eqb_spec x id) as [->|]; simpl; [|reflexivity]. destruct (has_node (ws_g s) id); [apply Hw|reflexivity].
+Qed.
+Lemma wv_upd_node_other s id f x : (forall n, n_id (f n) = n_id n) -> x <> id -> wv (upd_node s id f) x = wv s x.
+Proof.
+  intros Hid Hx. unfold wv. rewrite es_upd_node. f_equal. rewrite nd_upd_node by exact Hid.
+  rewrite (str_eqb_false x id) by exact Hx. reflexivity.
+Qed.
+Lemma wv_upd_node_at s id f :
+  (forall n, n_id (f n) = n_id n) -> has_node (ws_g s) id = true ->
+  wv (upd_node s id f) id = (n_wild (f (nd s id)), snd (wv s id)).
+Proof.
+  intros Hid Hn. unfold wv. rewrite es_upd_node. cbn [snd]. f_equal. rewrite nd_upd_node by exact Hid.
+  rewrite str_eqb_refl, Hn. reflexivity.
+Qed.
+Lemma wv_upd_edge_keep s r f x : (forall e, ewv (f e) = ewv e) -> wv (upd_edge s r f) x = wv s x.
+Proof.
+  intros Hf. unfold wv. rewrite nd_upd_edge. f_equal. rewrite es_upd_edge.
+  destruct (str_eqb_spec x (fst r)) as [->|]; [|reflexivity].
+  destruct (nth_error (es s (fst r)) (snd r)) as [e|] eqn:E; [|reflexivity].
+  apply map_wreplace with (y := e); auto.
+Qed.
+Lemma wv_upd_edge_other s id i f x : x <> id -> wv (upd_edge s (id, i) f) x = wv s x.
+Proof.
+  intros Hx. unfold wv. rewrite nd_upd_edge. f_equal. rewrite es_upd_edge. cbn [fst snd].
+  rewrite (str_eqb_false x id) by exact Hx. reflexivity.
+Qed.
+Lemma wv_upd_edge_at s id i e f :
+  nth_error (es s id) i = Some e ->
+  wv (upd_edge s (id, i) f) id = (fst (wv s id), wreplace_nth i (ewv (f e)) (snd (wv s id))).
+Proof.
+  intros He. unfold wv. rewrite nd_upd_edge. cbn [fst snd]. f_equal. rewrite es_upd_edge. cbn [fst snd].
+  rewrite str_eqb_refl, He. apply map_wreplace_nth.
+Qed.
+
 (* ---------------------------------------------------------------------------------------- *)
 (* 5. the invariant of the traversal on a graph without cycles                               *)
 (* ---------------------------------------------------------------------------------------- *)
@@ -288,6 +371,8 @@ Section Dyn.
   Hypothesis termok : terminals_not_placeholders g0.
   Notation gs := (gs g0 rank).
   Notation ew := (ew g0 rank).
+  Notation wsx := (wsx g0 rank).
+  Notation ews := (ews g0 rank).
 
   Definition Shape (s : wstate) : Prop := forall x,
     has_node (ws_g s) x = has_node g0 x /\ n_type (nd s x) = n_type (node_of g0 x) /\
@@ -296,28 +381,30 @@ Section Dyn.
     n_weights (nd s x) = [] /\ Forall (fun p => snd p = []) (eview s x).
   Definition Done (s : wstate) (x : str) : Prop :=
     n_weights (nd s x) = gs x /\ Forall (fun p => snd p = ew (fst p)) (eview s x).
+  Definition WFresh (s : wstate) (x : str) : Prop :=
+    (is_terminal (n_type (node_of g0 x)) = false -> fst (wv s x) = []) /\ Forall (fun p => snd p = []) (snd (wv s x)).
+  Definition WDone (s : wstate) (x : str) : Prop :=
+    seteq (fst (wv s x)) (wsx x) /\ Forall (fun p => seteq (snd p) (ews (fst p))) (snd (wv s x)).
 
   Record Inv (A : list str) (s : wstate) : Prop := {
     inv_shape : Shape s;
     inv_deps : ws_deps s = [];
-    inv_fresh : forall x, ~ In x (ws_visited s) -> Fresh s x;
-    inv_done : forall x, In x (ws_visited s) -> ~ In x A -> Done s x;
+    inv_fresh : forall x, ~ In x (ws_visited s) -> Fresh s x /\ WFresh s x;
+    inv_done : forall x, In x (ws_visited s) -> ~ In x A -> Done s x /\ WDone s x;
     inv_A : forall a, In a A -> In a (ws_visited s) }.
 
   (* nodes visited before are left alone (except, inside a node's own loop, that node) *)
   Definition Frame (ex : option str) (s s' : wstate) : Prop :=
     (forall x, In x (ws_visited s) -> In x (ws_visited s')) /\
-    (forall x, In x (ws_visited s) -> Some x <> ex -> nview s' x = nview s x /\ eview s' x = eview s x).
+    (forall x, In x (ws_visited s) -> Some x <> ex -> nview s' x = nview s x /\ eview s' x = eview s x /\ wv s' x = wv s x).
 
   Lemma Frame_refl ex s : Frame ex s s.
   Proof. split; auto. Qed.
   Lemma Frame_trans ex s1 s2 s3 : Frame ex s1 s2 -> Frame ex s2 s3 -> Frame ex s1 s3.
   Proof.
     intros [V1 F1] [V2 F2]. split; [auto|]. intros x Hx Hex.
-    destruct (F1 x Hx Hex) as [N1 E1]. destruct (F2 x (V1 x Hx) Hex) as [N2 E2]. split; congruence.
+    destruct (F1 x Hx Hex) as (N1 & E1 & W1). destruct (F2 x (V1 x Hx) Hex) as (N2 & E2 & W2). repeat split; congruence.
   Qed.
-  Lemma Frame_weaken ex s s' : Frame None s s' -> Frame ex s s'.
-  Proof. intros [V F]. split; [exact V|]. intros x Hx _. apply F; [exact Hx|discriminate]. Qed.
 
   Lemma nview_parts s s' x : nview s' x = nview s x ->
     has_node (ws_g s') x = has_node (ws_g s) x /\ n_type (nd s' x) = n_type (nd s x) /\
@@ -328,43 +415,32 @@ Section Dyn.
     has_node (ws_g s) x = a /\ n_type (nd s x) = b /\ n_label (nd s x) = c /\ n_weights (nd s x) = d.
   Proof. unfold nview. intros H. inversion H. auto. Qed.
 
-  (* a change confined to the edge weights of a node still in progress *)
-  Lemma Inv_edge_update A s s' id :
+  (* a change confined to a node still in progress: the weights and wildcards of its edges, its own wildcards *)
+  Lemma Inv_inprogress_update A s s' id :
     In id A -> Inv A s ->
     ws_visited s' = ws_visited s -> ws_deps s' = ws_deps s ->
     (forall x, nview s' x = nview s x) ->
     (forall x, x <> id -> eview s' x = eview s x) ->
     map fst (eview s' id) = map fst (eview s id) ->
+    (forall x, x <> id -> wv s' x = wv s x) ->
     Inv A s'.
   Proof.
-    intros HA [Sh Dp Fr Dn IA] Hv Hd Hn He Hs. split.
+    intros HA [Sh Dp Fr Dn IA] Hv Hd Hn He Hs Hw. split.
     - intros x. destruct (Sh x) as (S1 & S2 & S3 & S4). destruct (nview_parts _ _ _ (Hn x)) as (N1 & N2 & N3 & _).
       repeat split; try congruence.
       destruct (str_eqb_spec x id) as [->|Hx]; [congruence|]. rewrite (He x Hx). exact S4.
     - congruence.
-    - intros x Hx. rewrite Hv in Hx. destruct (Fr x Hx) as [F1 F2].
+    - intros x Hx. rewrite Hv in Hx. destruct (Fr x Hx) as [[F1 F2] WF].
       assert (x <> id) by (intros ->; apply Hx; apply IA; exact HA).
-      destruct (nview_parts _ _ _ (Hn x)) as (_ & _ & _ & N4). split; [congruence|]. rewrite (He x H). exact F2.
-    - intros x Hx HxA. rewrite Hv in Hx. destruct (Dn x Hx HxA) as [D1 D2].
+      destruct (nview_parts _ _ _ (Hn x)) as (_ & _ & _ & N4). split.
+      + split; [congruence|]. rewrite (He x H). exact F2.
+      + unfold WFresh. rewrite (Hw x H). exact WF.
+    - intros x Hx HxA. rewrite Hv in Hx. destruct (Dn x Hx HxA) as [[D1 D2] WD].
       assert (x <> id) by (intros ->; contradiction).
-      destruct (nview_parts _ _ _ (Hn x)) as (_ & _ & _ & N4). split; [congruence|]. rewrite (He x H). exact D2.
+      destruct (nview_parts _ _ _ (Hn x)) as (_ & _ & _ & N4). split.
+      + split; [congruence|]. rewrite (He x H). exact D2.
+      + unfold WDone. rewrite (Hw x H). exact WD.
     - intros a Ha. rewrite Hv. apply IA. exact Ha.
-  Qed.
-
-  (* nothing the invariant looks at changed *)
-  Lemma Inv_same_views A s s' :
-    Inv A s -> ws_visited s' = ws_visited s -> ws_deps s' = ws_deps s ->
-    (forall x, nview s' x = nview s x /\ eview s' x = eview s x) -> Inv A s'.
-  Proof.
-    intros [Sh Dp Fr Dn IA] Hv Hd H. split.
-    - intros x. destruct (Sh x) as (S1 & S2 & S3 & S4). destruct (H x) as [Hn He].
-      destruct (nview_parts _ _ _ Hn) as (N1 & N2 & N3 & _). repeat split; congruence.
-    - congruence.
-    - intros x Hx. rewrite Hv in Hx. destruct (Fr x Hx) as [F1 F2]. destruct (H x) as [Hn He].
-      destruct (nview_parts _ _ _ Hn) as (_ & _ & _ & N4). split; congruence.
-    - intros x Hx HxA. rewrite Hv in Hx. destruct (Dn x Hx HxA) as [D1 D2]. destruct (H x) as [Hn He].
-      destruct (nview_parts _ _ _ Hn) as (_ & _ & _ & N4). split; congruence.
-    - intros a Ha. rewrite Hv. auto.
   Qed.
 
   (* shapes of the current edges are those of the unweighted graph: rank and source *)
@@ -386,7 +462,8 @@ Section Dyn.
     forall A id path s tc s',
       Inv A s -> chain A id -> path_in A path ->
       rec_node id path s = (tc, None, s') ->
-      tc = [] /\ Inv A s' /\ Frame None s s' /\ (is_terminal (n_type (node_of g0 id)) = true \/ (In id (ws_visited s') /\ ~ In id A)).
+      tc = [] /\ Inv A s' /\ Frame None s s' /\
+      (is_terminal (n_type (node_of g0 id)) = true \/ (In id (ws_visited s') /\ ~ In id A)).
 
   Definition EdgeSpec (rec_edge : eref -> list pentry -> wstate -> cresult) : Prop :=
     forall A id i path s e tc s',
@@ -394,7 +471,10 @@ Section Dyn.
       nth_error (es s id) i = Some e -> is_terminal (n_type (node_of g0 (e_to e))) = false ->
       rec_edge (id, i) path s = (tc, None, s') ->
       tc = [] /\ Inv (id :: A) s' /\ Frame (Some id) s s' /\
-      nview s' id = nview s id /\ eview s' id = wreplace_nth i (eshape e, ew (eshape e)) (eview s id).
+      nview s' id = nview s id /\ eview s' id = wreplace_nth i (eshape e, ew (eshape e)) (eview s id) /\
+      wv s' id = wv s id /\
+      (* the target is finished *)
+      In (e_to e) (ws_visited s') /\ ~ In (e_to e) (id :: A).
 
   Lemma chain_notin A x : chain A x -> ~ In x A.
   Proof. intros H Hin. specialize (H x Hin). lia. Qed.
@@ -416,7 +496,7 @@ Section Dyn.
     destruct err1 as [x|]; [discriminate|].
     destruct (HN (id :: A) (e_to e) path' s tc1 s1 HI Hch' Hp' E1) as (-> & HI1 & HF1 & Hfin).
     destruct Hfin as [Hterm|[Hvis HnA]]; [congruence|].
-    destruct (inv_done _ _ HI1 (e_to e) Hvis HnA) as [Dw _]. fold (nd s1 (e_to e)) in H.
+    destruct (inv_done _ _ HI1 (e_to e) Hvis HnA) as [[Dw _] _]. fold (nd s1 (e_to e)) in H.
     destruct (n_weights (nd s1 (e_to e))) as [|kv0 tw0] eqn:Ew.
     - (* no weights: would have to be an ancestor *)
       rewrite is_tuple_cycle_absent in H; [discriminate|].
@@ -428,7 +508,7 @@ Section Dyn.
       split; [reflexivity|].
       (* the edge is still there in s1 *)
       assert (Hid : In id (ws_visited s)) by (apply (inv_A _ _ HI); left; reflexivity).
-      destruct HF1 as [V1 F1]. destruct (F1 id Hid) as [Nid Eid]; [discriminate|].
+      destruct HF1 as [V1 F1]. destruct (F1 id Hid) as (Nid & Eid & Wid); [discriminate|].
       assert (He1 : exists e1, nth_error (es s1 id) i = Some e1 /\ ev e1 = ev e).
       { apply nth_error_map_inv. fold (eview s1 id). rewrite Eid. unfold eview. apply map_nth_error. exact He. }
       destruct He1 as [e1 [He1 Ev1]].
@@ -437,8 +517,10 @@ Section Dyn.
       assert (HW : W = ew (eshape e)).
       { unfold W, ew, edge_w, eshape. rewrite Hnt. rewrite Dw. reflexivity. }
       destruct (edge_weights_views s1 id i e1 W (fun e' => edge_with_weights e' W) He1) as (Vn & Ve & Vi); [reflexivity|].
-      split; [|split; [|split]].
-      + apply (Inv_edge_update (id :: A) s1 _ id); auto.
+      assert (Vw : forall x, wv (upd_edge s1 (id, i) (fun e' => edge_with_weights e' W)) x = wv s1 x).
+      { intros x. apply wv_upd_edge_keep. reflexivity. }
+      split; [|split; [|split; [|split; [|split; [|split]]]]].
+      + apply (Inv_inprogress_update (id :: A) s1 _ id); auto.
         * left; reflexivity.
         * apply upd_edge_visited.
         * apply upd_edge_deps.
@@ -446,14 +528,23 @@ Section Dyn.
           apply (map_wreplace fst (eview s1 id) i (eshape e1, W) (ev e1)); [unfold eview; apply map_nth_error; exact He1|reflexivity].
       + split.
         * intros x Hx. rewrite upd_edge_visited. auto.
-        * intros x Hx Hex. assert (x <> id) by congruence. destruct (F1 x Hx) as [N1 E1']; [discriminate|].
-          rewrite Vn, (Ve x H). split; assumption.
+        * intros x Hx Hex. assert (x <> id) by congruence. destruct (F1 x Hx) as (N1 & E1' & W1); [discriminate|].
+          rewrite Vn, (Ve x H), Vw. repeat split; assumption.
       + rewrite Vn. exact Nid.
       + rewrite Vi, Eid, Esh1, HW. reflexivity.
+      + rewrite Vw. exact Wid.
+      + rewrite upd_edge_visited. exact Hvis.
+      + exact HnA.
   Qed.
+
   (* ---- the loop over the edges of a node ---- *)
   Definition progress (id : str) (i : nat) (s : wstate) : Prop :=
     forall j p, nth_error (eview s id) j = Some p -> snd p = if (j <? i)%nat then ew (fst p) else [].
+
+  Definition wprogress (id : str) (i : nat) (s : wstate) : Prop :=
+    (forall T, In T (fst (wv s id)) <->
+               exists j p, (j < i)%nat /\ nth_error (snd (wv s id)) j = Some p /\ In T (ews (fst p))) /\
+    (forall j p, nth_error (snd (wv s id)) j = Some p -> if (j <? i)%nat then seteq (snd p) (ews (fst p)) else snd p = []).
 
   Lemma progress_step id i s s' e W :
     progress id i s -> nth_error (es s id) i = Some e -> W = ew (eshape e) ->
@@ -467,15 +558,56 @@ Section Dyn.
     - rewrite (Hp j p Hj). destruct (Nat.ltb_spec j i), (Nat.ltb_spec j (S i)); try reflexivity; lia.
   Qed.
 
+  (* edge i gets the wildcard list X (the specification's, as a set), the node's list grows by X *)
+  Lemma wprogress_step id i s s' e X :
+    wprogress id i s -> nth_error (es s id) i = Some e -> seteq X (ews (eshape e)) ->
+    (forall T, In T (fst (wv s' id)) <-> In T (fst (wv s id)) \/ In T X) ->
+    snd (wv s' id) = wreplace_nth i (eshape e, X) (snd (wv s id)) ->
+    wprogress id (S i) s'.
+  Proof.
+    intros [Hn Hl] He HX Hnode Hedges.
+    assert (Hi : nth_error (snd (wv s id)) i = Some (ewv e)) by (unfold wv; cbn [snd]; apply map_nth_error; exact He).
+    split.
+    - intros T. rewrite Hnode, Hn, Hedges. split.
+      + intros [(j & p & Hj & Hp & HT)|HT].
+        * exists j, p. split; [lia|]. split; [|exact HT]. rewrite nth_error_wreplace.
+          destruct (Nat.eqb_spec j i); [lia|exact Hp].
+        * exists i, (eshape e, X). split; [lia|]. split; [|apply HX; exact HT].
+          rewrite nth_error_wreplace, Nat.eqb_refl, Hi. reflexivity.
+      + intros (j & p & Hj & Hp & HT). rewrite nth_error_wreplace in Hp.
+        destruct (Nat.eqb_spec j i) as [->|Hne].
+        * rewrite Hi in Hp. inversion Hp; subst p. right. apply HX. exact HT.
+        * left. exists j, p. split; [lia|]. split; assumption.
+    - intros j p Hp. rewrite Hedges, nth_error_wreplace in Hp.
+      destruct (Nat.eqb_spec j i) as [->|Hne].
+      + rewrite Hi in Hp. inversion Hp; subst p. cbn [fst snd]. rewrite (proj2 (Nat.ltb_lt i (S i))) by lia. exact HX.
+      + specialize (Hl j p Hp). destruct (Nat.ltb_spec j i), (Nat.ltb_spec j (S i)); try exact Hl; lia.
+  Qed.
+
+  Lemma merge_wild_in into from T : In T (merge_wild into from) <-> In T into \/ In T from.
+  Proof. apply Proofs.WildcardProofs.merge_wild_spec. Qed.
+
+  Lemma edge_wild_to_node_in n e T :
+    In T (n_wild (edge_wild_to_node n e)) <-> In T (n_wild n) \/ In T (e_wild e).
+  Proof.
+    unfold edge_wild_to_node. destruct (e_wild e) as [|w ws] eqn:E; [simpl; tauto|].
+    cbn [n_wild with_wild]. apply merge_wild_in.
+  Qed.
+  Lemma edge_wild_to_node_fn e n :
+    n_id (edge_wild_to_node n e) = n_id n /\ n_type (edge_wild_to_node n e) = n_type n /\
+    n_label (edge_wild_to_node n e) = n_label n /\ n_weights (edge_wild_to_node n e) = n_weights n.
+  Proof. unfold edge_wild_to_node. destruct (e_wild e); auto. Qed.
+
   Lemma edge_loop_spec rec_edge A id path :
     EdgeSpec rec_edge -> chain A id -> path_in (id :: A) path ->
     is_terminal (n_type (node_of g0 id)) = false ->
     forall k i s tc s',
-      Inv (id :: A) s -> n_weights (nd s id) = [] -> progress id i s -> (k + i = length (es s id))%nat ->
+      Inv (id :: A) s -> n_weights (nd s id) = [] -> progress id i s -> wprogress id i s ->
+      (k + i = length (es s id))%nat ->
       edge_loop (fun r s => rec_edge r path s) id k i [] s = (tc, None, s') ->
       tc = [] /\ Inv A s' /\ Frame (Some id) s s'.
   Proof.
-    intros HE Hch Hp Hnt. induction k as [|k IH]; intros i s tc s' HI Hw Hpr Hlen H.
+    intros HE Hch Hp Hnt. induction k as [|k IH]; intros i s tc s' HI Hw Hpr Hwp Hlen H.
     - (* all edges done: the node's own weights *)
       cbn [edge_loop] in H. destruct (from_edges s id []) as [tcs' r] eqn:Efe.
       destruct r as [s2|err|w]; try discriminate. inversion H; subst tc s'. clear H.
@@ -494,11 +626,33 @@ Section Dyn.
         - transitivity (map snd (eview s id)); [unfold eview; rewrite map_map; reflexivity|].
           apply map_ext_in. intros p Hin. rewrite Forall_forall in Hall. apply Hall. exact Hin.
         - rewrite <- (map_map fst ew). rewrite Sh4. rewrite map_map. reflexivity. }
+      (* and so are the wildcard lists *)
+      assert (Hlenw : length (snd (wv s id)) = length (es s id)) by (unfold wv; cbn [snd]; apply map_length).
+      assert (WD : WDone s id).
+      { destruct Hwp as [Hn Hl]. split.
+        - intros T. rewrite Hn. rewrite (wsx_equation g0 rank ranked id). rewrite in_flat_map.
+          assert (Hsh : map fst (snd (wv s id)) = map eshape (edges_from g0 id)).
+          { rewrite <- Sh4. unfold wv, eview. cbn [snd]. rewrite !map_map. reflexivity. }
+          split.
+          + intros (j & p & _ & Hp' & HT).
+            assert (Hin : In (fst p) (map eshape (edges_from g0 id))).
+            { rewrite <- Hsh. apply in_map. eapply nth_error_In; eauto. }
+            apply in_map_iff in Hin. destruct Hin as [e0 [E0 Hin0]]. exists e0. split; [exact Hin0|]. rewrite E0. exact HT.
+          + intros (e0 & Hin0 & HT).
+            assert (Hin : In (eshape e0) (map fst (snd (wv s id)))) by (rewrite Hsh; apply in_map; exact Hin0).
+            apply in_map_iff in Hin. destruct Hin as [p [Ep Hinp]]. apply In_nth_error in Hinp. destruct Hinp as [j Hj].
+            exists j, p. split; [|split; [exact Hj|rewrite Ep; exact HT]].
+            assert (j < length (snd (wv s id)))%nat by (apply nth_error_Some; congruence). lia.
+        - apply Forall_forall. intros p Hin. apply In_nth_error in Hin. destruct Hin as [j Hj].
+          specialize (Hl j p Hj). assert (j < length (snd (wv s id)))%nat by (apply nth_error_Some; congruence).
+          rewrite (proj2 (Nat.ltb_lt j i)) in Hl by lia. exact Hl. }
       assert (Hid : In id (ws_visited s)) by (apply (inv_A _ _ HI); left; reflexivity).
       assert (HnA : ~ In id A) by (apply chain_notin; exact Hch).
       destruct Hs2 as [->|[-> HW0]].
       + rewrite HW. destruct (set_node_weights_views s id (gs id)) as (Ve & Vn & Vi).
         specialize (Vi (nonterminal_has_node _ _ Hnt')).
+        assert (Vw : forall x, wv (upd_node s id (fun n => with_weights n (gs id))) x = wv s x).
+        { intros x. apply wv_upd_node_keep; reflexivity. }
         split.
         * destruct HI as [Sh Dp Fr Dn IA]. split.
           -- intros x. destruct (Sh x) as (S1 & S2 & S3 & S4).
@@ -508,21 +662,27 @@ Section Dyn.
                 split; [rewrite V3; exact S3|]. rewrite Ve. exact S4.
              ++ destruct (nview_parts _ _ _ (Vn x Hx)) as (N1 & N2 & N3 & _). rewrite Ve. repeat split; congruence.
           -- exact Dp.
-          -- intros x Hx. cbn [upd_node st_g ws_visited] in Hx. destruct (Fr x Hx) as [F1 F2].
+          -- intros x Hx. cbn [upd_node st_g ws_visited] in Hx. destruct (Fr x Hx) as [[F1 F2] WF].
              assert (x <> id) by (intros ->; contradiction).
-             destruct (nview_parts _ _ _ (Vn x H)) as (_ & _ & _ & N4). split; [congruence|]. rewrite Ve. exact F2.
+             destruct (nview_parts _ _ _ (Vn x H)) as (_ & _ & _ & N4). split.
+             ++ split; [congruence|]. rewrite Ve. exact F2.
+             ++ unfold WFresh. rewrite Vw. exact WF.
           -- intros x Hx HxA. cbn [upd_node st_g ws_visited] in Hx.
              destruct (str_eqb_spec x id) as [->|Hne].
-             ++ split; [|rewrite Ve; exact Hall]. destruct (nview_eq _ _ _ _ _ _ Vi) as (_ & _ & _ & V4). exact V4.
-             ++ destruct (Dn x Hx) as [D1 D2]; [intros [E|E]; [congruence|contradiction]|].
-                destruct (nview_parts _ _ _ (Vn x Hne)) as (_ & _ & _ & N4). split; [congruence|]. rewrite Ve. exact D2.
+             ++ split.
+                ** split; [|rewrite Ve; exact Hall]. destruct (nview_eq _ _ _ _ _ _ Vi) as (_ & _ & _ & V4). exact V4.
+                ** unfold WDone. rewrite Vw. exact WD.
+             ++ destruct (Dn x Hx) as [[D1 D2] WDx]; [intros [E|E]; [congruence|contradiction]|].
+                destruct (nview_parts _ _ _ (Vn x Hne)) as (_ & _ & _ & N4). split.
+                ** split; [congruence|]. rewrite Ve. exact D2.
+                ** unfold WDone. rewrite Vw. exact WDx.
           -- intros a Ha. apply IA. right. exact Ha.
-        * split; [auto|]. intros x Hx Hex. assert (x <> id) by congruence. split; [apply Vn; exact H|apply Ve].
+        * split; [auto|]. intros x Hx Hex. assert (x <> id) by congruence. split; [apply Vn; exact H|]. split; [apply Ve|apply Vw].
       + (* an operator of unknown kind: nothing stored, and nothing to store *)
         split; [|apply Frame_refl].
         destruct HI as [Sh Dp Fr Dn IA]. split; auto.
         * intros x Hx HxA. destruct (str_eqb_spec x id) as [->|Hne].
-          -- split; [|exact Hall]. rewrite Hw. rewrite <- HW. symmetry. exact HW0.
+          -- split; [|exact WD]. split; [|exact Hall]. rewrite Hw. rewrite <- HW. symmetry. exact HW0.
           -- apply Dn; [exact Hx|]. intros [E|E]; [congruence|contradiction].
         * intros a Ha. apply IA. right. exact Ha.
     - (* one more edge *)
@@ -532,9 +692,14 @@ Section Dyn.
       assert (Hew : e_weights e = []).
       { specialize (Hpr i (ev e)). unfold eview in Hpr. rewrite (map_nth_error ev _ _ He) in Hpr. specialize (Hpr eq_refl).
         rewrite Nat.ltb_irrefl in Hpr. exact Hpr. }
+      assert (Hewild : e_wild e = []).
+      { destruct Hwp as [_ Hl]. specialize (Hl i (ewv e)). unfold wv in Hl. cbn [snd] in Hl.
+        rewrite (map_nth_error ewv _ _ He) in Hl. specialize (Hl eq_refl). rewrite Nat.ltb_irrefl in Hl. exact Hl. }
       rewrite Hew in H.
       destruct (inv_shape _ _ HI (e_to e)) as (_ & ShT & _ & _). fold (nd s (e_to e)) in H. rewrite ShT in H.
       assert (Hid : In id (ws_visited s)) by (apply (inv_A _ _ HI); left; reflexivity).
+      destruct (inv_shape _ _ HI id) as (_ & Sh2 & _ & _).
+      assert (Hhas : has_node (ws_g s) id = true) by (apply nonterminal_has_node; fold (nd s id); rewrite Sh2; exact Hnt).
       destruct (is_terminal (n_type (node_of g0 (e_to e)))) eqn:Tt.
       + (* an edge to a type or a wildcard *)
         set (tt := n_type (node_of g0 (e_to e))) in *.
@@ -543,63 +708,127 @@ Section Dyn.
         set (s1 := if ntype_eqb tt NWildcard then upd_node s id (fun n => edge_wild_to_node n e1) else s) in H.
         set (s2 := st_g s1 (set_edge (ws_g s1) (id, i) (edge_with_weights e1 [(label, 1)]))) in H.
         assert (V1 : ws_visited s1 = ws_visited s /\ ws_deps s1 = ws_deps s /\
-                     forall x, nview s1 x = nview s x /\ eview s1 x = eview s x).
-        { unfold s1. destruct (ntype_eqb tt NWildcard); [|auto]. split; [reflexivity|]. split; [reflexivity|].
-          apply nodefn_views. intros n. unfold edge_wild_to_node. destruct (e_wild e1); auto. }
-        destruct V1 as (Vv & Vd & Vw).
+                     (forall x, nview s1 x = nview s x /\ eview s1 x = eview s x) /\
+                     (forall x, x <> id -> wv s1 x = wv s x) /\ snd (wv s1 id) = snd (wv s id) /\
+                     (forall T, In T (fst (wv s1 id)) <-> In T (fst (wv s id)) \/ In T (e_wild e1))).
+        { unfold s1. destruct (ntype_eqb tt NWildcard) eqn:Wc.
+          - split; [reflexivity|]. split; [reflexivity|]. split; [apply nodefn_views; intros n; apply edge_wild_to_node_fn|].
+            split; [intros x Hx; apply wv_upd_node_other; [intros n; apply edge_wild_to_node_fn|exact Hx]|].
+            rewrite wv_upd_node_at by (try exact Hhas; intros n; apply edge_wild_to_node_fn). cbn [fst snd].
+            split; [reflexivity|]. intros T. apply edge_wild_to_node_in.
+          - split; [reflexivity|]. split; [reflexivity|]. split; [auto|]. split; [auto|]. split; [reflexivity|].
+            intros T. unfold e1. rewrite Hewild. simpl. tauto. }
+        destruct V1 as (Vv & Vd & Vw & Vwo & Vws & Vwn).
         assert (He1 : nth_error (es s1 id) i = Some e).
         { unfold s1. destruct (ntype_eqb tt NWildcard); [|exact He]. rewrite es_upd_node. exact He. }
         assert (Esh : eshape e1 = eshape e) by (unfold e1; destruct (ntype_eqb tt NWildcard); reflexivity).
         assert (HW : [(label, 1)] = ew (eshape e)).
         { unfold ew, edge_w, eshape. fold tt. rewrite Tt. reflexivity. }
+        assert (HX : seteq (e_wild e1) (ews (eshape e))).
+        { unfold ews, edge_wild, eshape. fold tt. unfold e1, label. destruct tt eqn:Ett; try discriminate Tt; cbn [ntype_eqb].
+          - rewrite Hewild. apply seteq_refl.
+          - unfold add_wild_to_edge. cbn [e_wild edge_with_wild]. rewrite Hewild. apply seteq_refl. }
         assert (Es2 : s2 = upd_edge s1 (id, i) (fun _ => edge_with_weights e1 [(label, 1)])).
         { unfold s2, upd_edge, edge_at. cbn [fst snd]. fold (es s1 id). rewrite He1. reflexivity. }
         destruct (edge_weights_views s1 id i e [(label, 1)] (fun _ => edge_with_weights e1 [(label, 1)]) He1) as (Un & Ue & Ui).
         { unfold ev. cbn [e_weights edge_with_weights]. f_equal. exact Esh. }
-        assert (HI1 : Inv (id :: A) s1) by (apply (Inv_same_views _ s); auto).
         assert (HI2 : Inv (id :: A) s2).
-        { rewrite Es2. apply (Inv_edge_update (id :: A) s1 _ id); auto.
+        { rewrite Es2. apply (Inv_inprogress_update (id :: A) s _ id); auto.
           - left; reflexivity.
-          - apply upd_edge_visited.
-          - apply upd_edge_deps.
-          - rewrite Ui.
-            apply (map_wreplace fst (eview s1 id) i (eshape e, [(label, 1)]) (ev e)); [unfold eview; apply map_nth_error; exact He1|reflexivity]. }
+          - rewrite upd_edge_visited. exact Vv.
+          - rewrite upd_edge_deps. exact Vd.
+          - intros x. rewrite Un. apply Vw.
+          - intros x Hx. rewrite (Ue x Hx). apply Vw.
+          - rewrite Ui. destruct (Vw id) as [_ ->].
+            apply (map_wreplace fst (eview s id) i (eshape e, [(label, 1)]) (ev e)); [unfold eview; apply map_nth_error; exact He|reflexivity].
+          - intros x Hx. rewrite wv_upd_edge_other by exact Hx. apply Vwo. exact Hx. }
         assert (Hpr2 : progress id (S i) s2).
         { apply (progress_step id i s s2 e [(label, 1)]); auto.
           rewrite Es2, Ui. destruct (Vw id) as [_ ->]. reflexivity. }
+        assert (Hwp2 : wprogress id (S i) s2).
+        { apply (wprogress_step id i s s2 e (e_wild e1)); [exact Hwp|exact He|exact HX| |].
+          - intros T. rewrite Es2. rewrite (wv_upd_edge_at s1 id i e _ He1). cbn [fst]. apply Vwn.
+          - rewrite Es2. rewrite (wv_upd_edge_at s1 id i e _ He1). cbn [snd]. rewrite Vws.
+            unfold ewv. cbn [e_wild edge_with_weights]. f_equal. f_equal. exact Esh. }
         assert (Hw2 : n_weights (nd s2 id) = []).
         { rewrite Es2. destruct (nview_parts _ _ _ (Un id)) as (_ & _ & _ & ->).
           destruct (Vw id) as [Vn _]. destruct (nview_parts _ _ _ Vn) as (_ & _ & _ & ->). exact Hw. }
         assert (Hlen2 : (k + S i = length (es s2 id))%nat).
         { transitivity (length (eview s2 id)); [|unfold eview; apply map_length].
           rewrite Es2, Ui, length_wreplace. destruct (Vw id) as [_ ->]. unfold eview. rewrite map_length. lia. }
-        destruct (IH (S i) s2 tc s' HI2 Hw2 Hpr2 Hlen2 H) as (-> & HI' & HF').
+        destruct (IH (S i) s2 tc s' HI2 Hw2 Hpr2 Hwp2 Hlen2 H) as (-> & HI' & HF').
         split; [reflexivity|]. split; [exact HI'|].
         apply (Frame_trans _ s s2 s'); [|exact HF'].
         split.
         * intros x Hx. rewrite Es2, upd_edge_visited, Vv. exact Hx.
         * intros x Hx Hex. assert (x <> id) by congruence. rewrite Es2.
-          rewrite (Un x), (Ue x H0). apply Vw.
+          rewrite (Un x), (Ue x H0), (wv_upd_edge_other s1 id i _ x H0). destruct (Vw x) as [-> ->]. rewrite (Vwo x H0). auto.
       + (* an edge to a relation or an operator: calculateEdgeWeight, then the wildcard bookkeeping *)
         destruct (rec_edge (id, i) path s) as [[tc1 err1] s1] eqn:E1.
-        set (s2 := upd_edge s1 (id, i) _) in H.
+        set (wf := fun e0 : wedge => match e_wild e0, n_wild (node_of (ws_g s1) (e_to e0)) with
+                                     | [], (_ :: _) as nw => edge_with_wild e0 nw
+                                     | _, _ => e0
+                                     end) in H.
+        set (s2 := upd_edge s1 (id, i) wf) in H.
         set (s3 := match edge_at (ws_g s2) (id, i) with Some e' => upd_node s2 id (fun n => edge_wild_to_node n e') | None => s2 end) in H.
         destruct err1 as [x|]; [discriminate|].
-        destruct (HE A id i path s e tc1 s1 HI Hch Hp He Tt E1) as (-> & HI1 & HF1 & Nid & Eid).
+        destruct (HE A id i path s e tc1 s1 HI Hch Hp He Tt E1) as (-> & HI1 & HF1 & Nid & Eid & Wid & Tvis & TnA).
+        (* edge i in s1: same shape, no wildcards yet *)
+        assert (He1 : exists e1, nth_error (es s1 id) i = Some e1 /\ ewv e1 = ewv e).
+        { apply nth_error_map_inv. change (map ewv (es s1 id)) with (snd (wv s1 id)). rewrite Wid. unfold wv. cbn [snd].
+          apply map_nth_error. exact He. }
+        destruct He1 as [e1 [He1 Ew1]].
+        assert (Esh1 : eshape e1 = eshape e) by (unfold ewv in Ew1; congruence).
+        assert (Ewild1 : e_wild e1 = []) by (unfold ewv in Ew1; congruence).
+        assert (Eto1 : e_to e1 = e_to e) by (unfold eshape in Esh1; congruence).
+        destruct (inv_done _ _ HI1 (e_to e) Tvis TnA) as [_ [WDt _]].
+        set (X := n_wild (nd s1 (e_to e))).
+        assert (Hwf : ewv (wf e1) = (eshape e, X)).
+        { unfold wf, ewv. rewrite Ewild1, Eto1. fold (nd s1 (e_to e)). fold X.
+          destruct X as [|x0 X0] eqn:EX; cbn [e_wild edge_with_wild eshape e_from e_to e_type]; rewrite <- ?Esh1; try rewrite Ewild1; reflexivity. }
+        assert (HX : seteq X (ews (eshape e))).
+        { unfold ews, edge_wild, eshape. unfold X.
+          destruct (n_type (node_of g0 (e_to e))) eqn:Ett; try discriminate Tt; exact WDt. }
         assert (V2 : forall x, nview s2 x = nview s1 x /\ eview s2 x = eview s1 x).
-        { apply edgefn_views. intros e'. destruct (e_wild e'); [|reflexivity].
+        { apply edgefn_views. intros e'. unfold wf. destruct (e_wild e'); [|reflexivity].
           destruct (n_wild (node_of (ws_g s1) (e_to e'))); reflexivity. }
-        assert (V3 : ws_visited s3 = ws_visited s2 /\ ws_deps s3 = ws_deps s2 /\ forall x, nview s3 x = nview s2 x /\ eview s3 x = eview s2 x).
-        { unfold s3. destruct (edge_at (ws_g s2) (id, i)); [|auto]. split; [reflexivity|]. split; [reflexivity|].
-          apply nodefn_views. intros n. unfold edge_wild_to_node. destruct (e_wild w); auto. }
-        destruct V3 as (Vv3 & Vd3 & V3).
+        assert (W2 : wv s2 id = (fst (wv s1 id), wreplace_nth i (eshape e, X) (snd (wv s1 id)))).
+        { unfold s2. rewrite (wv_upd_edge_at s1 id i e1 wf He1). rewrite Hwf. reflexivity. }
+        assert (He2 : exists e2, edge_at (ws_g s2) (id, i) = Some e2 /\ e_wild e2 = X).
+        { unfold edge_at. cbn [fst snd]. fold (es s2 id).
+          assert (Hn : nth_error (snd (wv s2 id)) i = Some (eshape e, X)).
+          { rewrite W2. cbn [snd]. rewrite nth_error_wreplace, Nat.eqb_refl.
+            unfold wv. cbn [snd]. rewrite (map_nth_error ewv _ _ He1). reflexivity. }
+          unfold wv in Hn. cbn [snd] in Hn. apply nth_error_map_inv in Hn. destruct Hn as [e2 [Hn2 E2]].
+          exists e2. split; [exact Hn2|]. unfold ewv in E2. congruence. }
+        destruct He2 as [e2 [He2 Ew2]].
+        assert (Es3 : s3 = upd_node s2 id (fun n => edge_wild_to_node n e2)) by (unfold s3; rewrite He2; reflexivity).
+        assert (Hhas2 : has_node (ws_g s2) id = true).
+        { destruct (nview_parts _ _ _ (proj1 (V2 id))) as (-> & _). destruct (nview_parts _ _ _ Nid) as (-> & _). exact Hhas. }
+        assert (V3 : forall x, nview s3 x = nview s2 x /\ eview s3 x = eview s2 x).
+        { rewrite Es3. apply nodefn_views. intros n. apply edge_wild_to_node_fn. }
         assert (V13 : forall x, nview s3 x = nview s1 x /\ eview s3 x = eview s1 x).
         { intros x. destruct (V3 x) as [-> ->]. apply V2. }
-        assert (Vv : ws_visited s3 = ws_visited s1) by (rewrite Vv3; apply upd_edge_visited).
-        assert (Vd : ws_deps s3 = ws_deps s1) by (rewrite Vd3; apply upd_edge_deps).
-        assert (HI3 : Inv (id :: A) s3) by (apply (Inv_same_views _ s1); auto).
+        assert (Vv : ws_visited s3 = ws_visited s1) by (rewrite Es3; cbn [upd_node st_g ws_visited]; apply upd_edge_visited).
+        assert (Vd : ws_deps s3 = ws_deps s1) by (rewrite Es3; cbn [upd_node st_g ws_deps]; apply upd_edge_deps).
+        assert (Wo : forall x, x <> id -> wv s3 x = wv s1 x).
+        { intros x Hx. rewrite Es3. rewrite wv_upd_node_other by (try exact Hx; intros n; apply edge_wild_to_node_fn).
+          apply wv_upd_edge_other. exact Hx. }
+        assert (W3 : wv s3 id = (n_wild (edge_wild_to_node (nd s2 id) e2), wreplace_nth i (eshape e, X) (snd (wv s1 id)))).
+        { rewrite Es3. rewrite wv_upd_node_at by (try exact Hhas2; intros n; apply edge_wild_to_node_fn). rewrite W2. reflexivity. }
+        assert (HI3 : Inv (id :: A) s3).
+        { apply (Inv_inprogress_update (id :: A) s1 s3 id); auto.
+          - left; reflexivity.
+          - intros x. apply V13.
+          - intros x _. apply V13.
+          - destruct (V13 id) as [_ ->]. reflexivity. }
         assert (Hpr3 : progress id (S i) s3).
         { apply (progress_step id i s s3 e (ew (eshape e))); auto. destruct (V13 id) as [_ ->]. exact Eid. }
+        assert (Hwp3 : wprogress id (S i) s3).
+        { apply (wprogress_step id i s s3 e X); [exact Hwp|exact He|exact HX| |].
+          - intros T. rewrite W3. cbn [fst]. rewrite edge_wild_to_node_in, Ew2.
+            change (n_wild (nd s2 id)) with (fst (wv s2 id)). rewrite W2. cbn [fst]. rewrite Wid. tauto.
+          - rewrite W3. cbn [snd]. rewrite Wid. reflexivity. }
         assert (Hw3 : n_weights (nd s3 id) = []).
         { destruct (V13 id) as [Vn _]. destruct (nview_parts _ _ _ Vn) as (_ & _ & _ & ->).
           destruct (nview_parts _ _ _ Nid) as (_ & _ & _ & ->). exact Hw. }
@@ -607,13 +836,15 @@ Section Dyn.
         { transitivity (length (eview s3 id)); [|unfold eview; apply map_length].
           destruct (V13 id) as [_ ->]. rewrite Eid, length_wreplace. unfold eview. rewrite map_length. lia. }
         cbn [app] in H.
-        destruct (IH (S i) s3 tc s' HI3 Hw3 Hpr3 Hlen3 H) as (-> & HI' & HF').
+        destruct (IH (S i) s3 tc s' HI3 Hw3 Hpr3 Hwp3 Hlen3 H) as (-> & HI' & HF').
         split; [reflexivity|]. split; [exact HI'|].
         apply (Frame_trans _ s s3 s'); [|exact HF'].
         destruct HF1 as [VF1 FF1]. split.
         * intros x Hx. rewrite Vv. auto.
-        * intros x Hx Hex. destruct (FF1 x Hx Hex) as [N1 E1']. destruct (V13 x) as [-> ->]. split; assumption.
+        * intros x Hx Hex. assert (x <> id) by congruence. destruct (FF1 x Hx Hex) as (N1 & E1' & W1).
+          destruct (V13 x) as [-> ->]. rewrite (Wo x H0). auto.
   Qed.
+
   (* ---- calculateNodeWeight ---- *)
   Lemma calc_node_body_spec rec_edge : EdgeSpec rec_edge -> NodeSpec (calc_node_body rec_edge).
   Proof.
@@ -636,13 +867,17 @@ Section Dyn.
         destruct Hx as [Hx|[<-|[]]]; [|exfalso; apply HxA; left; reflexivity].
         apply (Dn x Hx). intros Hin. apply HxA. right. exact Hin.
       - intros a [<-|Ha]; unfold s1, mark_visited; cbn [ws_visited]; apply in_or_app; [right; left; reflexivity|left; auto]. }
-    destruct (inv_fresh _ _ HI id Hnv) as [Fw Fe].
+    destruct (inv_fresh _ _ HI id Hnv) as [[Fw Fe] [WFn WFe]].
     assert (Hpr : progress id 0 s1).
     { intros j p Hj. change (eview s1 id) with (eview s id) in Hj. rewrite Forall_forall in Fe.
       apply Fe. eapply nth_error_In; eauto. }
+    assert (Hwp : wprogress id 0 s1).
+    { unfold wprogress. change (wv s1 id) with (wv s id). split.
+      - intros T. rewrite (WFn Tt). split; [intros []|]. intros (j & p & Hj & _). lia.
+      - intros j p Hj. rewrite Forall_forall in WFe. apply WFe. eapply nth_error_In; eauto. }
     assert (Hp1 : path_in (id :: A) path).
     { unfold path_in in *. rewrite Forall_forall in *. intros p Hin. right. apply Hp. exact Hin. }
-    destruct (edge_loop_spec rec_edge A id path HE Hch Hp1 Tt _ 0%nat s1 tc s' HI1 Fw Hpr (Nat.add_0_r _) H) as (-> & HI' & [VF FF]).
+    destruct (edge_loop_spec rec_edge A id path HE Hch Hp1 Tt _ 0%nat s1 tc s' HI1 Fw Hpr Hwp (Nat.add_0_r _) H) as (-> & HI' & [VF FF]).
     split; [reflexivity|]. split; [exact HI'|]. split.
     - split.
       + intros x Hx. apply VF. unfold s1, mark_visited. cbn [ws_visited]. apply in_or_app. left. exact Hx.
@@ -689,8 +924,31 @@ Section Dyn.
 End Dyn.
 
 (* ---------------------------------------------------------------------------------------- *)
-(* 6. the theorem                                                                            *)
+(* 6. the theorems                                                                           *)
 (* ---------------------------------------------------------------------------------------- *)
+Lemma dag_invariant g0 rank order g' :
+  ranked_by g0 rank -> terminals_not_placeholders g0 -> unweighted g0 ->
+  assign_weights order g0 = Ok g' ->
+  exists s', ws_g s' = g' /\ Inv g0 rank [] s' /\ forall x, In x order -> reached g0 s' x.
+Proof.
+  intros Hr Ht (Un & Ue & Uw & Uew) H. unfold assign_weights in H.
+  set (s0 := {| ws_g := g0; ws_visited := []; ws_deps := [] |}) in H.
+  destruct (assign_loop _ order s0) as [s'| |] eqn:E; try discriminate. inversion H; subst g'. clear H.
+  assert (HI0 : Inv g0 rank [] s0).
+  { split.
+    - intros y. repeat split; try reflexivity. unfold eview, es. cbn [ws_g s0]. rewrite map_map. reflexivity.
+    - reflexivity.
+    - intros y _. split.
+      + split; [apply Un|]. apply Forall_forall. intros p Hp. unfold eview in Hp. apply in_map_iff in Hp.
+        destruct Hp as [e [<- He]]. cbn [snd ev]. apply (Ue y). exact He.
+      + split; [intros Hnt; apply (Uw y Hnt)|]. apply Forall_forall. intros p Hp. unfold wv in Hp. cbn [snd] in Hp.
+        apply in_map_iff in Hp. destruct Hp as [e [<- He]]. cbn [snd ewv]. apply (Uew y). exact He.
+    - intros y [].
+    - intros a []. }
+  destruct (assign_loop_spec g0 rank Hr Ht _ order s0 s' HI0 E) as (HI' & _ & Hreach).
+  exists s'. auto.
+Qed.
+
 Theorem dag_weights g0 rank order g' :
   ranked_by g0 rank -> terminals_not_placeholders g0 -> unweighted g0 ->
   assign_weights order g0 = Ok g' ->
@@ -698,20 +956,10 @@ Theorem dag_weights g0 rank order g' :
     n_weights (node_of g' x) = gs g0 rank x /\
     map ev (edges_from g' x) = map (fun e => (eshape e, ew g0 rank (eshape e))) (edges_from g0 x).
 Proof.
-  intros Hr Ht [Un Ue] H x Hx Hnt. unfold assign_weights in H.
-  set (s0 := {| ws_g := g0; ws_visited := []; ws_deps := [] |}) in H.
-  destruct (assign_loop _ order s0) as [s'| |] eqn:E; try discriminate. inversion H; subst g'. clear H.
-  assert (HI0 : Inv g0 rank [] s0).
-  { split.
-    - intros y. repeat split; try reflexivity. unfold eview, es. cbn [ws_g s0]. rewrite map_map. reflexivity.
-    - reflexivity.
-    - intros y _. split; [apply Un|]. apply Forall_forall. intros p Hp. unfold eview in Hp. apply in_map_iff in Hp.
-      destruct Hp as [e [<- He]]. cbn [snd ev]. apply (Ue y). exact He.
-    - intros y [].
-    - intros a []. }
-  destruct (assign_loop_spec g0 rank Hr Ht _ order s0 s' HI0 E) as (HI' & _ & Hreach).
+  intros Hr Ht Hu H x Hx Hnt.
+  destruct (dag_invariant g0 rank order g' Hr Ht Hu H) as (s' & <- & HI' & Hreach).
   destruct (Hreach x Hx) as [Hterm|Hvis]; [congruence|].
-  destruct (inv_done _ _ _ _ HI' x Hvis) as [D1 D2]; [intros []|].
+  destruct (inv_done _ _ _ _ HI' x Hvis) as [[D1 D2] _]; [intros []|].
   split; [exact D1|].
   destruct (inv_shape _ _ _ _ HI' x) as (_ & _ & _ & S4).
   fold (es s' x). fold (eview s' x).
@@ -731,4 +979,21 @@ Proof.
   intros Hr Ht Hu H1 H2 x Hx1 Hx2 Hnt.
   destruct (dag_weights g0 rank o1 g1 Hr Ht Hu H1 x Hx1 Hnt) as [A1 B1].
   destruct (dag_weights g0 rank o2 g2 Hr Ht Hu H2 x Hx2 Hnt) as [A2 B2]. split; congruence.
+Qed.
+
+(* wildcards (C11): the list of a node holds exactly the public types whose wildcard node can be reached from it *)
+Theorem dag_wildcards g0 rank order g' :
+  ranked_by g0 rank -> terminals_not_placeholders g0 -> unweighted g0 ->
+  assign_weights order g0 = Ok g' ->
+  forall x, In x order -> is_terminal (n_type (node_of g0 x)) = false ->
+    (forall T, In T (n_wild (node_of g' x)) <-> reaches_wild g0 x T) /\
+    (forall e, In e (edges_from g' x) -> forall T, In T (e_wild e) <-> In T (ews g0 rank (eshape e))).
+Proof.
+  intros Hr Ht Hu H x Hx Hnt.
+  destruct (dag_invariant g0 rank order g' Hr Ht Hu H) as (s' & <- & HI' & Hreach).
+  destruct (Hreach x Hx) as [Hterm|Hvis]; [congruence|].
+  destruct (inv_done _ _ _ _ HI' x Hvis) as [_ [W1 W2]]; [intros []|].
+  split.
+  - intros T. rewrite <- (wsx_reaches g0 rank Hr (S (rank x)) x T) by lia. apply W1.
+  - intros e He T. rewrite Forall_forall in W2. apply (W2 (ewv e)). unfold wv. cbn [snd]. apply in_map. exact He.
 Qed.
